@@ -717,7 +717,7 @@ func compileAssignStmtLeft(context *funcContext, stmt *ast.AssignStmt) (int, []*
 		case *ast.AttrGetExpr:
 			ac := &assigncontext{&expcontext{ecTable, regNotDefined, 0}, 0, 0, false, false}
 			if len(stmt.Lhs) == 1 {
-				compileExprWithKMVPropagation(context, st.Object, &reg, &ac.ec.reg)
+				compileExprWithMVPropagation(context, st.Object, &reg, &ac.ec.reg)
 			} else {
 				// a local read in place could be overwritten by another target of the same assignment
 				ac.ec.reg = reg
@@ -1052,7 +1052,7 @@ func compileFuncDefStmt(context *funcContext, stmt *ast.FuncDefStmt) { // {{{
 	if stmt.Name.Func == nil {
 		reg := context.RegTop()
 		var treg, kreg int
-		compileExprWithKMVPropagation(context, stmt.Name.Receiver, &reg, &treg)
+		compileExprWithMVPropagation(context, stmt.Name.Receiver, &reg, &treg)
 		kreg = loadRk(context, &reg, stmt.Func, LString(stmt.Name.Method))
 		compileExpr(context, reg, stmt.Func, ecfuncdef)
 		context.Code.AddABC(OP_SETTABLE, treg, kreg, reg, sline(stmt.Name.Receiver))
